@@ -25,7 +25,24 @@ import time
 
 VERIF = os.path.dirname(os.path.dirname(os.path.dirname(os.path.abspath(__file__))))
 REPO = os.environ.get("VERIF_REPO", "/repo")
-COQ = os.path.join(VERIF, "coq")
+# A check against another source tree (VERIF_REPO=<copy>, used for mutation / seeded-change runs) works
+# in its own copy of coq/ and ocaml/ so that it cannot disturb, or be disturbed by, checks of /repo.
+if os.path.realpath(REPO) == "/repo":
+    WORK = VERIF
+else:
+    WORK = "/tmp/verif-work-" + hashlib.sha256(os.path.realpath(REPO).encode()).hexdigest()[:12]
+os.environ["VERIF_WORK"] = WORK
+COQ = os.path.join(WORK, "coq")
+
+
+def prepare_work():
+    if WORK == VERIF:
+        return
+    os.makedirs(WORK, exist_ok=True)
+    for d in ("coq", "ocaml"):
+        subprocess.run(["rsync", "-a", "--delete", "--exclude", "Cases/", "--exclude", "Generated/*",
+                        os.path.join(VERIF, d) + "/", os.path.join(WORK, d) + "/"], check=True)
+    os.makedirs(os.path.join(WORK, "coq", "Generated"), exist_ok=True)
 NPROC = int(os.environ.get("VERIF_JOBS", "16"))
 
 FORBIDDEN = re.compile(
@@ -58,7 +75,7 @@ class Lock:
 
     def __init__(self, name):
         self.name = name
-        self.path = os.path.join(VERIF, f".lock-{name}")
+        self.path = os.path.join(WORK, f".lock-{name}")
 
     def __enter__(self):
         ent = Lock._held.get(self.name)
@@ -282,10 +299,32 @@ def _ocaml_model(prop: str, deps: list[str]):
     the extraction file Requires (e.g. ["Model/Writer.vo"]); they are built first.
     Returns (ok, path_or_log).  Rebuilt when any input changed."""
     ext_v = os.path.join(COQ, "Extract", f"{prop}.v")
-    odir = os.path.join(VERIF, "ocaml", prop)
-    bindir = os.path.join(VERIF, "bin")
+    odir = os.path.join(WORK, "ocaml", prop)
+    bindir = os.path.join(WORK, "bin")
     os.makedirs(bindir, exist_ok=True)
     exe = os.path.join(bindir, f"modelrun_{prop}")
+    def closure_hash():
+        closure = [ext_v]
+        for d in deps:
+            closure += coq_closure(d[:-1])
+        h = hashlib.sha256()
+        for rel in sorted(set(closure)):
+            try:
+                h.update(open(os.path.join(COQ, rel), "rb").read())
+            except FileNotFoundError:
+                h.update(b"<missing:" + rel.encode() + b">")
+        for f in (os.path.join(WORK, "ocaml", "common", "conv.ml"), os.path.join(odir, "driver.ml")):
+            h.update(open(f, "rb").read())
+        return h.hexdigest()
+
+    stamp = os.path.join(odir, ".stamp")
+    # fast path without the shared Coq lock: nothing the runner depends on changed since it was built
+    try:
+        if os.path.exists(exe) and os.path.exists(os.path.join(COQ, ".Makefile.coq.d")) \
+                and open(stamp).read() == closure_hash():
+            return True, exe
+    except OSError:
+        pass
     ok, log, _ = coq_make(deps)
     if not ok:
         return False, log
@@ -298,7 +337,7 @@ def _ocaml_model(prop: str, deps: list[str]):
             h.update(open(os.path.join(COQ, rel), "rb").read())
         except FileNotFoundError:
             pass
-    for f in (os.path.join(VERIF, "ocaml", "common", "conv.ml"), os.path.join(odir, "driver.ml")):
+    for f in (os.path.join(WORK, "ocaml", "common", "conv.ml"), os.path.join(odir, "driver.ml")):
         h.update(open(f, "rb").read())
     stamp = os.path.join(odir, ".stamp")
     if os.path.exists(exe) and os.path.exists(stamp) and open(stamp).read() == h.hexdigest():
@@ -309,7 +348,7 @@ def _ocaml_model(prop: str, deps: list[str]):
         if rc != 0 or not os.path.exists(os.path.join(odir, "model.ml")):
             return False, "extraction failed:\n" + out
         with open(os.path.join(odir, "all.ml"), "w") as w:
-            for part in (os.path.join(odir, "model.ml"), os.path.join(VERIF, "ocaml", "common", "conv.ml"), os.path.join(odir, "driver.ml")):
+            for part in (os.path.join(odir, "model.ml"), os.path.join(WORK, "ocaml", "common", "conv.ml"), os.path.join(odir, "driver.ml")):
                 w.write(f"# 1 \"{part}\"\n")
                 w.write(open(part).read())
                 w.write("\n")
@@ -436,13 +475,13 @@ def load_known():
 
 
 def write_replay(ctx, payload: dict) -> str:
-    d = os.path.join(VERIF, "evidence", "replays")
+    d = os.path.join(WORK, "evidence", "replays")
     os.makedirs(d, exist_ok=True)
     h = hashlib.sha256(json.dumps(payload, sort_keys=True, default=str).encode()).hexdigest()[:12]
     path = os.path.join(d, f"{ctx.prop}-{h}.json")
     with open(path, "w") as f:
         json.dump(payload, f, indent=1, default=str)
-    return os.path.relpath(path, VERIF)
+    return os.path.relpath(path, VERIF) if WORK == VERIF else path
 
 
 # ----------------------------------------------------------------------------
@@ -475,16 +514,13 @@ def main(argv=None):
     # 1. translator  (the Coq lock is held from regeneration to the end of the Coq step so that a
     #    concurrent check working against another VERIF_REPO cannot swap Generated/*.v in between)
     from translator import gen
+    prepare_work()
     coq_lock = Lock("coq")
     coq_lock.__enter__()
     needed = list(getattr(module, "GENERATED", []))
     # only this property's generated files are rewritten (other checks may be running concurrently
     # against another VERIF_REPO); files that do not exist yet are generated too
-    missing = [os.path.basename(p)[4:-3] for p in glob.glob(os.path.join(VERIF, "translator", "gen_*.py"))]
     tr = gen.regenerate(only=needed) if needed else {}
-    tr_all = None
-    if not all(os.path.exists(os.path.join(COQ, "Generated", f)) for f in needed):
-        tr_all = gen.regenerate()
     for out in needed:
         r = tr.get(out)
         if r is None:
@@ -616,8 +652,9 @@ def main(argv=None):
         "wall_s": round(wall, 2),
         "violations": len(ctx.violations) + (1 if (broken and not ctx.violations) else 0),
     }
-    os.makedirs(os.path.join(VERIF, "evidence"), exist_ok=True)
-    with open(os.path.join(VERIF, "evidence", f"{prop}.json"), "w") as f:
+    # evidence of a run against another source tree stays in that run's work directory
+    os.makedirs(os.path.join(WORK, "evidence"), exist_ok=True)
+    with open(os.path.join(WORK, "evidence", f"{prop}.json"), "w") as f:
         json.dump(ev, f, indent=1, default=str)
     print(f"[{prop}] tier={a.tier} seed={a.seed} obligations {n_ok}/{n_ob} evaluations={ctx.evaluations} "
           f"nontrivial={len(ctx.nontrivial)} violations={ev['violations']} wall={wall:.1f}s", flush=True)
